@@ -1378,6 +1378,11 @@ class Engine:
         for name, expr in c.ensures.items():
             g = self.eval_spec(expr, st, bound, res, pre, c)
             st.assume(Implies(And(*self.guards), g))
+        if (c.assumed or c.fresh_paths or c.fresh_result) and self.prune and not self.spec_mode:
+            # vacuity guard: an assumed (or allocating) contract whose postcondition contradicts the caller's state would silently prune the path
+            if not self.feasible(st) and self.feasible(pre):
+                g_ = self.emit(f"{site}:post-consistent", FALSE, st, kind="cover")
+                g_.expect = "sat"
         if c.functional is not None and res.ty.kind == "int":
             app = self.functional_app(pre, qname, [bound[p] for p in params])
             st.assume(Implies(And(*self.guards), And(Not(res.none), res.v == app)))
